@@ -14,7 +14,7 @@ Proof. revert n; induction l; destruct n; simpl; intros; auto; inversion H; cons
 
 Lemma eff_move_half t g' h h' : (g' < length (h_qs h))%nat -> move_half t g' h = Ok h' -> eff 0 h h'.
 Proof.
-  unfold move_half. intros Hg'. destruct (find_nat t _); [|discriminate]. intros H; inversion H; clear H H1. intros W.
+  unfold move_half. intros Hg'. destruct (rswap _ t _); [|discriminate]. intros H; inversion H; clear H H1. intros W.
   pose proof (grp_lt h t W) as Hg.
   split.
   - destruct W; constructor; simpl; rewrite ?length_upd; auto;
@@ -153,14 +153,14 @@ Proof.
     assert (G1 : GoodSt s1).
     { eapply on_half_good; [|exact G|exact O1]. intros v h h' Eh F. split.
       - eapply eff_move_half; [|exact F]. subst h; simpl. exact C.
-      - unfold move_half in F. destruct (find_nat _ _); [|discriminate]. inversion F; triv_len. }
+      - unfold move_half in F. destruct (rswap _ _ _); [|discriminate]. inversion F; triv_len. }
     intros O2. eapply on_half_good; [|exact G1|exact O2]. intros v h h' Eh F. split.
     + eapply eff_move_half; [|exact F]. subst h; simpl.
       assert (X : length (h_qs (s_dn s1)) = length (h_qs (s_up s))).
       { unfold on_half in O1. destruct (move_half _ _ _) as [hh|] eqn:M; [|discriminate]. inversion O1; simpl.
         destruct G as (_ & _ & L1 & _). auto. }
       rewrite X. exact C.
-    + unfold move_half in F. destruct (find_nat _ _); [|discriminate]. inversion F; triv_len.
+    + unfold move_half in F. destruct (rswap _ _ _); [|discriminate]. inversion F; triv_len.
   - (* OAdvance *) intros H; inversion H. destruct G as (? & ? & ? & ?). unfold GoodSt; simpl; auto.
   - (* ORate *) destruct (Nat.ltb _ _); intros H; inversion H; subst; auto; destruct G as (? & ? & ? & ?); unfold GoodSt; simpl; auto.
 Qed.
